@@ -35,6 +35,14 @@ impl Errors {
         self.inner.len()
     }
 
+    /// Whether any of the errors has severity `error` (rather than `warning`).
+    #[must_use]
+    pub fn has_error_severity(&self) -> bool {
+        self.inner
+            .iter()
+            .any(|err| err.severity == Severity::Error)
+    }
+
     pub(super) fn push(&mut self, err: Error) {
         self.inner.push(err);
     }
